@@ -7,6 +7,7 @@ from . import names as N
 from . import trees as T
 
 BOX = 3.0
+N_CONST_SAFE = 6  # indices 0..6 of trees.CONSTS: 1, 2, 3, -1, -2, 0.5, 2.5
 
 
 def _val(lo=0.1, hi=BOX):
@@ -42,6 +43,7 @@ def model_specs(
     innovation=("none", "k"),
     allow_positive=True,
     allow_abs2=None,
+    template=None,  # None | "bilinear" | "mixed" (one model in four bilinear)
     # inverse-composition nodes (atan(tan u), sqrt(u**2) ...) at the OUTERMOST level of state updates only: nested under
     # other functions (via the pool) or differentiated in sensors they make sympy's simplify take 10 s+
     allow_wrap=False,
@@ -76,7 +78,31 @@ def model_specs(
             pooltrees.append(pt)
 
     trees = {}
+    bilinear = template == "bilinear" or (template == "mixed" and draw(st.integers(0, 3)) == 0)
     for s in state:
+        if bilinear:
+            # linear in the state with state x control / state x calibration products: the Jacobians contain no state
+            # symbol but do depend on controls, calibration and dt
+            terms = []
+            for _ in range(draw(st.integers(1, 3))):
+                xj = ["sym", draw(st.sampled_from(state))]
+                others = control + calib
+                k = draw(st.sampled_from(["const", "ctl", "ctl_dt", "dt"])) if others else draw(st.sampled_from(["const", "dt"]))
+                if k == "const":
+                    terms.append(["mul", ["const", draw(st.integers(0, N_CONST_SAFE))], xj])
+                elif k == "dt":
+                    terms.append(["mul", ["sym", dtname], xj])
+                elif k == "ctl":
+                    terms.append(["mul", ["sym", draw(st.sampled_from(others))], xj])
+                else:
+                    terms.append(["mul", ["mul", ["sym", draw(st.sampled_from(others))], ["sym", dtname]], xj])
+            if control and draw(st.booleans()):
+                terms.append(["mul", ["sym", dtname], ["sym", draw(st.sampled_from(control))]])
+            t = terms[0]
+            for extra in terms[1:]:
+                t = ["add", t, extra]
+            trees[s] = t
+            continue
         if euler:
             # x' = a*x_j + dt*E : keeps histories bounded
             j = draw(st.sampled_from(state))
@@ -92,7 +118,7 @@ def model_specs(
             trees[s] = draw(T.exprs(syms, positive, depth=depth, pool=pooltrees, allow_abs2=allow_abs2, allow_wrap=allow_wrap))
 
     string_form = []
-    if allow_string_form and names == "ident" and draw(st.integers(0, 7)) == 0:
+    if allow_string_form and names == "ident" and draw(st.integers(0, 2)) == 0:
         string_form = [s for s in state if draw(st.booleans())]
 
     containers = {
@@ -161,6 +187,39 @@ def points(draw, spec, *, dt=("pos", "neg"), extra_zero_dt=False):
     mag = draw(st.floats(min_value=1e-3, max_value=0.5, allow_nan=False))
     p[spec["dt"]] = {"pos": mag, "neg": -mag, "zero": 0.0}[k]
     return p
+
+
+@st.composite
+def point_sequences(draw, spec, n, **kw):
+    """n input points where consecutive points share some of their input groups (time step / state / control): a result
+    memoised on part of the inputs (a cache keyed by dt only, a static temporary, ...) shows up as a stale value."""
+    pts = [draw(points(spec, **kw))]
+    for _ in range(n - 1):
+        fresh = draw(points(spec, **kw))
+        keep = draw(st.sampled_from(["none", "dt", "dt+state", "dt+control", "state", "control", "all-but-one", "all-but-one"]))
+        p = dict(fresh)
+        prev = pts[-1]
+        if keep == "all-but-one":
+            # exactly one input moves between two small "nice" values (integer-valued floats are where hash- or
+            # equality-keyed memoisation goes wrong: hash(-1.0) == hash(-2.0) in CPython)
+            p = dict(prev)
+            names_ = [n_ for n_ in spec["state"] + spec["control"] if n_ not in spec["positive"]]
+            if names_:
+                nm = draw(st.sampled_from(names_))
+                a, b = draw(st.permutations([-2.0, -1.0, 1.0, 2.0, -0.5, 0.5]))[:2]
+                prev[nm], p[nm] = a, b
+            pts.append(p)
+            continue
+        if "dt" in keep:
+            p[spec["dt"]] = prev[spec["dt"]]
+        if "state" in keep:
+            for s_ in spec["state"]:
+                p[s_] = prev[s_]
+        if "control" in keep:
+            for c_ in spec["control"]:
+                p[c_] = prev[c_]
+        pts.append(p)
+    return pts
 
 
 # ------------------------------------------------------------------------------------------
